@@ -10,18 +10,28 @@ S->I : every exported strand is completed by the real complement_dsDNA (directly
        .ig / .fasta file through the parsers; a subset through gen_params -dsdna with a synthetic 12-block force field, observing
        the MetaMolecule handed to MapToMolecule and the residues of the .itp); the added strand is completed once more (involution).
 I->S : seeded random long strands, records (input, observed graph, second completion) judged by TLC.
+
+Call histories (spec/SeqCallsP.tla, SeqCalls.tla, SeqCallsTrace.tla; harness/seq_calls_util.py): the process and the file system are
+state.  One Python process calls the real gen_params again and again - the same unchanged sequence file several times, with and
+without -dsdna, other sources in between, a file rewritten between two calls; every call must return ExpCall(current content, flag).
+S->I : every history of the instance exported by TLC is replayed in one process; I->S: seeded random process scripts on long
+       strands (.fasta / .ig / .json / -seq) are recorded and judged by SeqCallsTrace.
 """
 import copy
 import json
 import random
+from pathlib import Path
 
 from .. import common as c
 from .. import seq_util as u
+from .. import seq_calls_util as cu
 
 FAST = {"JAVA_TOOL_OPTIONS": "-Xss64m -XX:TieredStopAtLevel=1"}     # short TLC runs: no C2 compilation (3x less CPU)
 PROP = "C19"
 DEVS = [("PairTable", "Final"), ("TermNoSwap", "Final"), ("Direction", "Final"), ("NoLabelCopy", "Final"),
         ("StartByKey", "Final"), ("WalkToResid1", "Final")]
+# deviations of the call histories (SeqCalls.tla): cfg suffix, law that TLC must refute
+HDEVS = [("keepsParsed", "CallLaw"), ("keepsCopyByPath", "CallLaw"), ("keepsParsedRep", "Repeatable")]
 
 
 def key(inp):
@@ -249,6 +259,229 @@ def binding_demo(ck, traces):
     ck.extra["binding_demo"] = "of 4 recorded completions the 2 corrupted ones (one base of the added strand; one edge of the second completion) were rejected"
 
 
+# ------------------------------------------------------------------ call histories (SeqCalls.tla): one process, many calls
+
+def _hist_chunk(arg):
+    ci, items, files, wd, ff = arg
+    u.setenv()
+    bad, ncalls = [], 0
+    for k, hist in items:
+        mis, n = cu.run_history(hist, files, wd, "h%d_%d" % (ci, k), ff)
+        ncalls += n
+        if mis:
+            bad.append((k, mis))
+        for f in list(Path(wd).glob("h%d_%d*" % (ci, k))):
+            f.unlink()
+    return bad, ncalls
+
+
+def _pmap_fresh(func, items):
+    """like common.pmap, but every item is handled by a process of its own (forked for it): the histories of one item are
+    exactly what that process has done, so that a stored case can be replayed with the same past"""
+    import multiprocessing as mp
+    items = list(items)
+    with mp.get_context("fork").Pool(min(c.NPROC, max(1, len(items))), initializer=c._init_worker, maxtasksperchild=1) as pool:
+        return pool.map(func, items, 1)
+
+
+def _hist_stats(hists):
+    """what the exported histories exercise (vacuity guard)"""
+    st = {"same_unchanged_source_completed_twice": 0, "plain_call_after_completion_of_the_same_source": 0,
+          "call_after_a_rejected_call_of_the_same_source": 0, "path_rewritten_between_two_calls": 0,
+          "other_source_between_two_calls": 0}
+    for h in hists:
+        ver = {}           # source -> number of rewrites so far
+        seen = []          # (src, version, ds, rej)
+        flags = set()
+        for e in h:
+            if e["op"] == "write":
+                ver[e["src"]] = ver.get(e["src"], 0) + 1
+            elif e["op"] == "call":
+                v = ver.get(e["src"], 0)
+                for (s2, v2, ds2, rej2) in seen:
+                    if s2 == e["src"] and v2 == v:
+                        if ds2 and e["ds"] and not rej2:
+                            flags.add("same_unchanged_source_completed_twice")
+                        if ds2 and not e["ds"]:
+                            flags.add("plain_call_after_completion_of_the_same_source")
+                        if rej2:
+                            flags.add("call_after_a_rejected_call_of_the_same_source")
+                    if s2 == e["src"] and v2 != v:
+                        flags.add("path_rewritten_between_two_calls")
+                if len(seen) >= 2 and seen[-1][0] != e["src"] and any(x[0] == e["src"] for x in seen[:-1]):
+                    flags.add("other_source_between_two_calls")
+                seen.append((e["src"], v, e["ds"], e["rej"]))
+        for f in flags:
+            st[f] += 1
+    return st
+
+
+def replay_histories(ck, res):
+    files = res.tagged("FILES")
+    hists = res.tagged("HIST")
+    if len(files) != 1 or not hists:
+        raise c.MachineryError("SeqCalls exported %d FILES records and %d histories" % (len(files), len(hists)))
+    files = files[0]
+    hists.sort(key=lambda h: json.dumps(h, sort_keys=True))
+    st = _hist_stats(hists)
+    if not all(st.values()):
+        raise c.MachineryError("vacuous call histories: %s" % st)
+    wd = c.workdir(PROP, "calls")
+    ff = wd / "universe.ff"
+    u.universe_ff(ff)
+    # the histories of one worker run one after the other in that process (state of earlier histories is state too)
+    parts = [(i, ch, files, str(wd), str(ff)) for i, ch in enumerate(c.chunks(list(enumerate(hists)), c.NPROC * 2))]
+    ncalls = 0
+    for bad, n in _pmap_fresh(_hist_chunk, parts):
+        ncalls += n
+        for k, mis in bad:
+            h = hists[k]
+            # what the same worker process had replayed before (--replay runs it again first: the process is the state)
+            before = next([hists[k2] for k2, _ in ch if k2 < k] for _, ch, _, _, _ in parts if any(k2 == k for k2, _ in ch))
+            ck.violation({"kind": "S->I calls", "hist": h, "files": files, "mismatch": mis, "before": before},
+                         what="one process: %s -> call %d: %s" % (cu.describe(h, mis["at"]), sum(1 for e in h[:mis["at"] + 1] if e["op"] == "call"), mis["why"]))
+    ck.replayed += len(hists)
+    ck.evaluations += ncalls
+    for h in hists:
+        ck.nontrivial.add("calls:" + cu.describe(h))
+    mid = hists[len(hists) // 2]
+    ck.sample({"S->I call history (one process)": cu.describe(mid),
+               "expected residues per call": [("rejected" if e["rej"] else e["g"]["n"]) for e in mid if e["op"] == "call"]})
+    ck.extra["call_histories"] = dict(st, histories=len(hists), gen_params_calls=ncalls, contents=len(files))
+
+
+def _letters(rng, n):
+    return [rng.choice("ACGT") for _ in range(n)]
+
+
+def _lines(rng, n):
+    cuts = sorted(rng.sample(range(1, n), rng.choice([0, 1, 2]))) if n > 3 else []
+    return [b - a for a, b in zip([0] + cuts, cuts + [n])]
+
+
+def _content(rng, src, n, t, like=None):
+    """a random abstract sequence input for source src (P1 .fasta, P2 .ig, P3 .json, S -seq); like: keep the shape of that content so that
+    the rendered file has the same number of bytes"""
+    if src == "P1":
+        kind = like["kind"] if like else ("RNA" if t % 6 == 4 else "DNA")
+        return {"fam": "file", "fmt": "fasta", "kind": kind, "toks": _letters(rng, n), "lines": list(like["lines"]) if like else _lines(rng, n),
+                "circ": False, "terOwn": False, "nl": True, "hdr": list(kind)}
+    if src == "P2":
+        return {"fam": "file", "fmt": "ig", "kind": "DNA", "toks": _letters(rng, n), "lines": list(like["lines"]) if like else _lines(rng, n),
+                "circ": rng.random() < 0.5, "terOwn": like["terOwn"] if like else rng.random() < 0.3, "nl": True, "hdr": list("DNA"),
+                "title": list("title")}
+    letters = _letters(rng, n)
+    circ = src == "P3" and rng.random() < 0.4
+    names = ["D" + x for x in letters]
+    if not circ:
+        names[0] += "5"
+        names[-1] += "3"
+    if src == "S":
+        blocks = []
+        for nm in names:
+            if blocks and blocks[-1]["name"] == nm:
+                blocks[-1]["cnt"] += 1
+            else:
+                blocks.append({"name": nm, "cnt": 1})
+        return {"fam": "seqlist", "blocks": blocks}
+    if rng.random() < 0.2:
+        names[rng.randrange(n)] = rng.choice(["U", "ALA", "GLY", "C5", "PEO"])      # no DNA names, but blocks of the synthetic force field
+    kind = rng.choice(["zero", "one", "gap", "shuf"])
+    keys = list(range(n)) if kind == "zero" else list(range(1, n + 1)) if kind == "one" else sorted(rng.sample(range(0, 3 * n + 5), n))
+    if kind == "shuf":
+        rng.shuffle(keys)
+    return {"fam": "dsdna", "names": names, "circ": circ, "tag": rng.randint(1, n - 1) if rng.random() < 0.4 else 0, "keys": keys,
+            "first": 1 if kind == "zero" else rng.choice([1, 2, 11, rng.randint(3, 300)]), "rounds": 1}
+
+
+def gen_call_scripts(ntr, sd, big):
+    """seeded process scripts: four sources written once, then 7-10 operations - calls of gen_params (the first two on the same
+    unchanged file, the first with -dsdna) and rewrites (often with a strand of the same length, time stamps put back)"""
+    rng = random.Random(1000003 * sd + 19)
+    out = []
+    for t in range(ntr):
+        nmax = 120 if big else 48
+        cur = {}
+        script = []
+        for src in ("P1", "P2", "P3", "S"):
+            cur[src] = _content(rng, src, rng.randint(6, 20 if src == "S" else nmax), t)
+            script.append({"op": "write", "src": src, "inp": cur[src]})
+        s0 = rng.choice(["P1", "P2", "P3"])
+        script += [{"op": "call", "src": s0, "ds": True}, {"op": "call", "src": s0, "ds": rng.random() < 0.7}]
+        for _ in range(rng.randint(5, 8)):
+            if rng.random() < 0.22:
+                src = rng.choice(["P1", "P2", "P3"])
+                same = rng.random() < 0.6
+                n = len(cur[src]["toks"] if src != "P3" else cur[src]["names"]) if same else rng.randint(6, nmax)
+                cur[src] = _content(rng, src, n, t, like=cur[src] if (same and src != "P3") else None)
+                script.append({"op": "write", "src": src, "inp": cur[src], "keepstat": same and src != "P3"})
+            else:
+                src = rng.choice(["P1", "P2", "P3", "P1", "P2", "P3", "S"])
+                script.append({"op": "call", "src": src, "ds": True if src == "S" else rng.random() < 0.7})
+        out.append(script)
+    return out
+
+
+def _call_chunk(arg):
+    ci, scripts, wd, ff = arg
+    u.setenv()
+    return [cu.record_trace(sc, wd, "t%d_%d" % (ci, j), ff) for j, sc in enumerate(scripts)]
+
+
+def call_traces(ck, ntr, sd, big):
+    scripts = gen_call_scripts(ntr, sd, big)
+    wd = c.workdir(PROP, "calls_rec")
+    ff = wd / "universe.ff"
+    u.universe_ff(ff)
+    traces = []
+    for part in _pmap_fresh(_call_chunk, [(i, ch, str(wd), str(ff)) for i, ch in enumerate(c.chunks(scripts, c.NPROC))]):
+        traces.extend(part)
+    ncall = sum(1 for tr in traces for e in tr if e["op"] == "call")
+    ck.evaluations += ncall
+    rep = sum(1 for tr in traces for a, b in zip(tr, tr[1:]) if a["op"] == b["op"] == "call" and a["src"] == b["src"] and a["ds"] and b["ds"] and not a["rej"])
+    kept = sum(1 for tr in traces for e in tr if e["op"] == "write" and e["keptstat"])
+    rejd = sum(1 for tr in traces for e in tr if e["op"] == "call" and e["rej"])
+    if not (rep and kept and rejd):
+        raise c.MachineryError("vacuous call traces: repeated completions %d, rewrites with the old size and time stamps %d, rejected calls %d" % (rep, kept, rejd))
+    # binding demonstration: a wrong base in the strand added by a REPEATED call / a source changed by a call must be rejected
+    cand = [k for k, tr in enumerate(traces) if not tr[4]["rej"] and not tr[5]["rej"] and tr[5]["ds"]][:3]
+    demo = copy.deepcopy([traces[k] for k in cand])
+    if len(demo) == 3:
+        g = demo[0][5]["g"]
+        g["name"][-2] = {"DA": "DG", "DC": "DT", "DG": "DA", "DT": "DC"}.get(g["name"][-2], "DA")
+        demo[1][4]["unchanged"] = False
+    from concurrent.futures import ThreadPoolExecutor
+    with ThreadPoolExecutor(2) as ex:          # two TLC runs side by side
+        fmain = ex.submit(cu.validate, traces, "calls", PROP)
+        fdemo = ex.submit(cu.validate, demo, "calls_binding", PROP) if len(demo) == 3 else None
+        res, rejected = fmain.result()
+        rej = fdemo.result()[1] if fdemo else None
+    ck.add_tlc(res)
+    ck.traces += len(traces) - len(rejected)
+    for tid, matched in sorted(rejected.items()):
+        tr = traces[tid - 1]
+        ev = tr[matched] if matched < len(tr) else {}
+        ck.violation({"kind": "I->S calls trace", "trace": tr, "matched": matched},
+                     what="one process, event %d of %d: gen_params(%s%s) on a source whose content is unchanged since event %s is not what SeqCalls "
+                          "allows for that content (observed %s residues%s)" % (
+                              matched + 1, len(tr), ev.get("src"), ", dsdna" if ev.get("ds") else "",
+                              max([j + 1 for j, e in enumerate(tr[:matched]) if e["op"] == "write" and e["src"] == ev.get("src")] or [0]),
+                              (ev.get("g") or {}).get("n"), ", rejected" if ev.get("rej") else ""))
+    for tr in traces:
+        ck.nontrivial.add("calltrace:" + json.dumps([[e["op"], e["src"], e.get("ds")] for e in tr]) + json.dumps(tr[0]["inp"])[:80])
+    if rej is None or any((k + 1) in rejected for k in cand):
+        if ck.violations:
+            ck.note("binding demonstration of the call traces skipped: its traces are not accepted as recorded")
+            return
+        raise c.MachineryError("binding demonstration of the call traces: not enough traces")
+    if rej != {1: 5, 2: 4}:
+        raise c.MachineryError("binding demonstration of the call traces failed: expected traces 1 and 2 rejected at events 6 and 5, got %s" % rej)
+    ck.extra["call_traces"] = {"processes": len(traces), "gen_params_calls": ncall, "repeated_completions_of_an_unchanged_file": rep,
+                               "rewrites_keeping_size_and_time_stamps": kept, "rejected_calls": rejd,
+                               "binding_demo": "of 3 recorded processes the 2 corrupted ones (one base of the strand added by the second call on "
+                                               "an unchanged file; a source reported as changed by a call) were rejected at that event"}
+
+
 # ------------------------------------------------------------------ entry points
 
 def run(tier):
@@ -262,22 +495,38 @@ def run(tier):
                "a rendered .ig/.fasta file, a subset through gen_params -dsdna) and the added strand is completed once more; a case is distinct "
                "by its abstract input; strands of length <= 4 also with 1-based / sparse / shuffled node keys (largest key on or off the 3' residue) "
                "and residue ids from 11, every accepted strand is completed a second time in place. I->S: seeded random strands of 6-200 (thorough -600) residues, linear / circular / labelled / with an "
-               "unknown name, judged by TLC")
+               "unknown name, judged by TLC. Call histories (the process and the file system are state): TLC enumerates every history of 3 (thorough 4) "
+               "operations of one process over two paths (.json strands with shuffled keys / residue ids from 11 / an unknown name in the middle / a "
+               "ring; .ig files) and the inline -seq list - gen_params with and without -dsdna, the same unchanged source again, other sources in "
+               "between, at most one rewrite of a path - with the I-layer walk CStart/CStep working in place on the reader's object; CallLaw: every "
+               "call returns ExpCall(current content, flag); every history is replayed through the real gen_params inside ONE process (graph handed "
+               "to the mapping stage, residues of the .itp, source text unchanged); seeded process scripts of 11-14 events on .fasta/.ig/.json/-seq "
+               "strands of 6-48 (thorough -120) residues, with rewrites of equal size whose time stamps are put back, are recorded and judged by "
+               "SeqCallsTrace")
     ck.assumptions = ["strands are given as the readers of polyply produce them: 0-based strands directly, every other choice of node keys "
                       "(1-based, sparse, in any order against the residue ids) and of the first residue id through a rendered .json file; "
                       "residue ids of a strand are consecutive",
                       "rejection = IOError or KeyError raised by complement_dsDNA (the code raises KeyError when the last residue is unknown)",
                       "a one-residue strand is given with an explicit known name (DA, DA5, DA3 ...); the file readers name it DA53, which is rejected",
-                      "trusted: TLC, the rendering and projection in harness/seq_util.py, networkx"]
+                      "call histories: unknown names of the .json strands are names of blocks of the synthetic force field (a plain call maps them); "
+                      "a rejected call is an IOError / KeyError leaving gen_params before the mapping stage; every chunk of histories / scripts runs in "
+                      "a process forked for it, and what that process replayed before is part of a stored case",
+                      "trusted: TLC, the rendering and projection in harness/seq_util.py and harness/seq_calls_util.py, networkx"]
     ck.stage("TLC: export (with all invariants and laws) and sensitivity runs, concurrently")
     jobs = [("SeqInputExport", "Seq_ds_%s.cfg" % ("q" if q else "t"), {"workers": 6 if q else 10, "env": FAST})]
     jobs += [("SeqInputMC", "Seq_dev_%s.cfg" % d, {"check": False, "workers": 1, "env": FAST}) for d, _ in DEVS]
+    jobs += [("SeqCalls", "Seq_calls_%s.cfg" % ("q" if q else "t"), {"workers": 2 if q else 6, "env": FAST})]
+    jobs += [("SeqCalls", "Seq_calls_dev_%s.cfg" % d, {"check": False, "workers": 1, "env": FAST}) for d, _ in HDEVS]
     res = c.tlc_many(jobs)
     ck.model_must_hold(res[0], "Shape/Final/OrigKept/Laws (Involution, MirrorLaw, table = Watson-Crick law)/Grows")
     for (d, inv), r in zip(DEVS, res[1:]):
         ck.model_must_refute(r, inv, "deviation %s" % d)
-    ck.extra["deviations_refuted"] = [d for d, _ in DEVS]
-    cases = res[0].cases()
+    hres = res[1 + len(DEVS)]
+    ck.model_must_hold(hres, "call histories: Shape/OrigKept/CallLaw/Repeatable/ContentLaws/CallsOnlyRead")
+    for (d, inv), r in zip(HDEVS, res[2 + len(DEVS):]):
+        ck.model_must_refute(r, inv, "call histories, deviation %s" % d)
+    ck.extra["deviations_refuted"] = [d for d, _ in DEVS] + ["calls:" + d for d, _ in HDEVS]
+    cases = sorted(res[0].cases(), key=lambda x: key(x["inp"]))       # TLC's workers print in any order: fixed order, fixed subsets
     ck.stage("replay")
     mid = [x for x in cases if x["inp"]["circ"] and not x["rej"]]
     ck.sample({"S->I strand": mid[len(mid) // 2]["inp"], "expected": mid[len(mid) // 2]["g"]})
@@ -286,6 +535,10 @@ def run(tier):
     _replay(ck, cases, 12 if q else 4)
     if not ck.extra["rejection_cases"] or not ck.extra["through_gen_params_dsdna"]:
         raise c.MachineryError("no rejection cases / no gen_params runs (vacuous)")
+    ck.stage("call histories: replay in one process each worker")
+    replay_histories(ck, hres)
+    ck.stage("call histories: record and validate process traces")
+    call_traces(ck, 40 if q else 300, sd, big=not q)
     ck.stage("I->S: record")
     inps = gen_inputs(240 if q else 1500, sd, big=not q)
     traces = record(inps)
@@ -304,6 +557,21 @@ def run(tier):
 def replay(path):
     doc = json.loads(open(path).read())
     case = doc["case"]
+    if case["kind"] == "S->I calls":
+        u.setenv()
+        wd = c.workdir(PROP, "replay_one")
+        ff = wd / "universe.ff"
+        u.universe_ff(ff)
+        for j, h in enumerate(case.get("before", [])):
+            cu.run_history(h, case["files"], str(wd), "b%d" % j, str(ff))
+        mis, _ = cu.run_history(case["hist"], case["files"], str(wd), "h", str(ff))
+        print("replayed %s: %s" % (cu.describe(case["hist"]), ("still differs at entry %d: %s\n  observed: %s" % (
+            mis["at"], mis["why"], json.dumps(mis["observed"])[:1500])) if mis else "matches now"))
+        return 1 if mis else 0
+    if case["kind"] == "I->S calls trace":
+        _, rej = cu.validate([case["trace"]], "replay_one", prop=PROP)
+        print("replayed: %s" % ("still rejected" if rej else "accepted now"))
+        return 1 if rej else 0
     if case["kind"].startswith("S->I"):
         wd = c.workdir(PROP, "replay_one")
         ff = wd / "universe.ff"
